@@ -197,3 +197,39 @@ pub fn zig(req: &Req) -> R<String> {
 		_ => return Err(Bad),
 	})
 }
+
+/// `urange`: uniform float ranges sampled under REAL generators after a pre-history (C12: the bounds must hold whatever generator and
+/// whatever buffer position the unit float comes from); even samples through a stored `Uniform`, odd ones through `Random::range`
+pub fn urange(req: &Req) -> R<String> {
+	use urandom::rng::{ChaCha12, ChaCha20, ChaCha8, SplitMix64, Wyrand, Xoshiro256};
+	let w = req.u64("w")?;
+	let n = req.usize("n")?;
+	let pre = req.strs("pre");
+	let seed = req.opt_u64("seed")?.unwrap_or(0);
+	let lo = req.u64("lo")?;
+	let hi = req.u64("hi")?;
+	fn run<G: urandom::Rng>(mut r: urandom::Random<G>, pre: &[&str], w: u64, lo: u64, hi: u64, n: usize) -> R<String> {
+		for op in pre {
+			crate::word::run_op_noclone(&mut r, op)?;
+		}
+		let out: Vec<String> = if w == 64 {
+			let (lo, hi) = (f64::from_bits(lo), f64::from_bits(hi));
+			let d = Uniform::<f64>::try_new(lo, hi).map_err(|_| Bad)?;
+			(0..n).map(|i| if i % 2 == 0 { r.sample(&d) } else { r.range(lo..hi) }.to_bits().to_string()).collect()
+		} else {
+			let (lo, hi) = (f32::from_bits(lo as u32), f32::from_bits(hi as u32));
+			let d = Uniform::<f32>::try_new(lo, hi).map_err(|_| Bad)?;
+			(0..n).map(|i| if i % 2 == 0 { r.sample(&d) } else { r.range(lo..hi) }.to_bits().to_string()).collect()
+		};
+		Ok(format!("ok:{}", out.join(",")))
+	}
+	match req.get("gen")? {
+		"xoshiro" => run(Xoshiro256::from_seed(seed), &pre, w, lo, hi, n),
+		"splitmix" => run(SplitMix64::from_seed(seed), &pre, w, lo, hi, n),
+		"wyrand" => run(Wyrand::from_seed(seed), &pre, w, lo, hi, n),
+		"chacha8" => run(ChaCha8::from_seed(seed), &pre, w, lo, hi, n),
+		"chacha12" => run(ChaCha12::from_seed(seed), &pre, w, lo, hi, n),
+		"chacha20" => run(ChaCha20::from_seed(seed), &pre, w, lo, hi, n),
+		_ => Err(Bad),
+	}
+}
